@@ -1,13 +1,26 @@
 import PlzVerif.Lemmas.SchedProgress
 import PlzVerif.Lemmas.SchedFacts
+import PlzVerif.Lemmas.SchedRun
 import PlzVerif.Generated.C04
 /-!
 C05  Builds always terminate and report failure faithfully.
 
-Same model as C04 (`Model/Sched.lean`); failures are the `workerFail` action, `--keep_going` off is the
-external `stop` action arriving after a failure, a dependency failure propagates through the
+Same model as C04 (`Model/Sched.lean`); failures are the `workerFail` action (a command fails) and the
+`queuerAbort` action (`asyncError`: a dependency cannot be queued — the target stays Active without a queuer, the
+queues are stopped); `--keep_going` off is the external `stop` action arriving after a failure
+(output/targets.go:106, pinned by the `sk_handleOutput` fact); a dependency failure propagates through the
 `DependencyFailed` branch of the queuer.  Real time, the 5 s cycle timer and the Go scheduler are not in the
 model: "terminates" is "no infinite execution", "no deadlock" is "some goroutine can step unless Run returns".
+
+**What these theorems do NOT cover (the parse phase).**  Three of the property's anchors are outside the model:
+`SyncParsePackage` / `WaitForPackage` (waiters on `pendingPackages` / `packageWaits`, state.go:847-897), the
+`ErrMap.GetOrSet` waiters of subincludes (cerrmap.go:62; their wake-up discipline is C15's subject) and parse tasks
+(`addPendingParse`).  In particular the hang the property is motivated by — a waiter on a package whose parse failed:
+`LogParseResult` closes the channel only on `PackageParsed` — is not excluded by any theorem here; what ends such a run
+is `Stop()` from the display loop on `ParseFailed` (even with --keep_going).  Those functions are pinned as facts
+(`C05_facts_ok`: `sk_SyncParsePackage`, `sk_WaitForPackage`, `sk_LogParseResult`, `sk_addPendingParse`,
+`sk_handleOutput`), and the behaviour is checked on the real binary only (harness/cmd/c05: syntax errors, missing
+packages, several waiters on a package that fails to parse, 60 s limit).  Hence the `_build_phase_partial` names.
 -/
 namespace PlzVerif.Props.C05
 open PlzVerif.Sched
@@ -23,8 +36,15 @@ theorem C05_facts_ok :
     PlzVerif.Generated.C04.sk_checkForCycles = Facts.expected_sk_checkForCycles ∧
     PlzVerif.Generated.C04.sk_queueTargetAsync = Facts.expected_sk_queueTargetAsync ∧
     PlzVerif.Generated.C04.sk_Build = Facts.expected_sk_Build ∧
-    PlzVerif.Generated.C04.sk_Run = Facts.expected_sk_Run :=
-  ⟨rfl, rfl, rfl, rfl, rfl, rfl, rfl⟩
+    PlzVerif.Generated.C04.sk_Run = Facts.expected_sk_Run ∧
+    -- outside the model, pinned as they are (see the note on the parse phase below):
+    PlzVerif.Generated.C04.sk_addPendingParse = Facts.expected_sk_addPendingParse ∧
+    PlzVerif.Generated.C04.sk_LogParseResult = Facts.expected_sk_LogParseResult ∧
+    PlzVerif.Generated.C04.sk_SyncParsePackage = Facts.expected_sk_SyncParsePackage ∧
+    PlzVerif.Generated.C04.sk_WaitForPackage = Facts.expected_sk_WaitForPackage ∧
+    PlzVerif.Generated.C04.sk_handleOutput = Facts.expected_sk_handleOutput ∧
+    PlzVerif.Generated.C04.initFacts = Facts.expectedInitFacts :=
+  ⟨rfl, rfl, rfl, rfl, rfl, rfl, rfl, rfl, rfl, rfl, rfl, rfl, rfl⟩
 
 /-- **Progress measure**: every step of the scheduler either leaves the state unchanged (a redundant activation
     or `Stop`) or strictly decreases `mu` — whatever the graph (cycles included), the failures, the number of
@@ -46,11 +66,24 @@ theorem C05_terminates (hwf : WF c) : WellFounded (fun s' s => Reach c s ∧ Ste
     · exact h
   · exact InvImage.wf (mu c) Nat.lt_wfRel.wf
 
-/-- **No deadlock on acyclic graphs**: in every reachable state either `plz.Run` is about to return (queues
-    closed and drained, all workers done) or some goroutine of the program can take a step — with any failures,
-    with or without an external `Stop`. -/
-theorem C05_no_deadlock {s : St} (hr : Reach c s) (hacy : Acyclic c) : Final s ∨ CanStep c s :=
+/-- **No deadlock in the build phase on acyclic graphs** (partial: parse-phase waits are outside the model, see
+    the header): in every reachable state either `plz.Run` is about to return (queues closed and drained, all
+    workers done) or some goroutine of the scheduler can take a step — whatever commands fail, whichever
+    dependencies cannot be queued, with or without an external `Stop`. -/
+theorem C05_no_deadlock_build_phase_partial {s : St} (hr : Reach c s) (hacy : Acyclic c) : Final s ∨ CanStep c s :=
   no_deadlock c hr hacy
+
+-- `Acyclic` is satisfiable by graphs with edges: a diamond 3 → {1,2} → 0
+example : Acyclic ⟨4, fun t => if t = 3 then [1, 2] else if t = 1 ∨ t = 2 then [0] else [], true⟩ :=
+  ⟨fun t => t, by
+    intro t d h
+    show d < t
+    simp only at h
+    split at h
+    · rename_i h3; subst h3; simp at h; rcases h with h | h <;> subst h <;> decide
+    · split at h
+      · rename_i h12; simp at h; subst h; rcases h12 with h1 | h2 <;> subst_vars <;> decide
+      · simp at h⟩
 
 /-- the enabled step changes the state (so together with `C05_terminates`: on an acyclic graph every maximal
     execution is finite and ends in a `Final` state) -/
@@ -62,20 +95,6 @@ theorem C05_step_changes_state (hwf : WF c) {s s' : St} (hr : Reach c s) {a : Ac
 
 /-- two targets that depend on each other -/
 def cyc2 : Cfg := ⟨2, fun t => if t = 0 then [1] else if t = 1 then [0] else [], true⟩
-
-def runActs (c : Cfg) : St → List Action → Option St
-  | s, [] => some s
-  | s, a :: r => (fire c s a).bind fun s' => runActs c s' r
-
-theorem runActs_reach (c : Cfg) {s s' : St} (as : List Action) (hr : Reach c s) (h : runActs c s as = some s') :
-    Reach c s' := by
-  induction as generalizing s with
-  | nil => simp [runActs] at h; exact h ▸ hr
-  | cons a r ih =>
-    simp only [runActs] at h
-    cases hf : fire c s a with
-    | none => simp [hf] at h
-    | some s1 => rw [hf] at h; exact ih (Reach.step hr ⟨a, hf⟩) h
 
 /-- the state after: target 0 requested; its queuer activates 1 and starts waiting; 1's queuer finds 0 already
     active and starts waiting; the initial scan is done -/
@@ -93,7 +112,7 @@ theorem cycState_reach : Reach cyc2 cycState := by
 /-- **Why the cycle check is needed** (witness): on a two-target cycle the scheduler reaches a state that is
     not final and in which no goroutine can step — both queuers wait for each other's `finishedBuilding` while
     `numPending` stays at 2.  Only an external `Stop` (state.go:700, the inactivity check) ends the run; `stop`
-    is always enabled.  (Acyclicity is therefore necessary in `C05_no_deadlock`.) -/
+    is always enabled.  (Acyclicity is therefore necessary in `C05_no_deadlock_build_phase_partial`.) -/
 theorem C05_witness_cycle_needs_detector :
     Reach cyc2 cycState ∧ ¬ Final cycState ∧ ¬ CanStep cyc2 cycState ∧ cycState.numPending = 2 ∧
       (fire cyc2 cycState .stop).isSome = true := by
@@ -133,6 +152,15 @@ theorem C05_witness_cycle_needs_detector :
         · cases h : cycState.qs i with
           | none => rw [h] at hf; cases hf
           | some q => have := hi.qFresh i q h; rw [hq] at this; omega
+    | queuerAbort i =>
+      simp only [fire] at hf
+      by_cases h0 : i = 0
+      · subst h0; rw [hq0] at hf; simp at hf
+      · by_cases h1 : i = 1
+        · subst h1; rw [hq1] at hf; simp at hf
+        · cases h : cycState.qs i with
+          | none => rw [h] at hf; cases hf
+          | some q => have := hi.qFresh i q h; rw [hq] at this; omega
     | take m => simp [fire, hchan m] at hf
     | drop m => simp [fire, hchan m] at hf
     | workerStart w => simp [fire, hws w] at hf
@@ -153,6 +181,22 @@ theorem C05_no_run_after_failed_dep {s : St} (hr : Reach c s) (t d : T) (hd : d 
     have hb := (hi.depsDone t (by omega) (by intro e; exact h1 (.inr e)) d hd).2
     revert hb hbad
     cases s.st d <;> simp [TS.isBad, TS.isBuilt, TS.rank]
+
+/-- **The exit status cannot miss a failure**: whenever a target is Failed, or a queuer gave up through
+    `asyncError`, the `failed` flag (`progress.failed`/`buildFailed`, from which `toExitCode` derives a non-zero
+    status) is set — and it is never reset.  (The converse half, "non-zero only if something requested could not be
+    built", involves the result stream and `MonitorState` and is checked end to end only.) -/
+theorem C05_failure_sets_exit_flag {s : St} (hr : Reach c s) (t : T) (hf : s.st t = .failed) : s.failed = true :=
+  (reach_inv c hr).failedFlag t hf
+
+theorem C05_abort_sets_exit_flag_and_stops {s s' : St} (i : Nat) (h : fire c s (.queuerAbort i) = some s') :
+    s'.failed = true ∧ s'.stopped = true := by
+  simp only [fire] at h
+  split at h
+  · split at h
+    · cases h; exact ⟨rfl, rfl⟩
+    · cases h
+  · cases h
 
 /-- a failure is never lost: a failed target stays failed and reported as failed -/
 theorem C05_failure_reported {s : St} (hr : Reach c s) (t : T) (hf : s.st t = .failed) :
